@@ -235,6 +235,10 @@ def shapes(tier):
     A(freq=W, byyearday=[-364], wkst=0, span=2, K=3)
     A(freq=W, byyearday=[-366, -365, 3], span=2, K=4)
     A(freq=W, byyearday=[1, 2, -1], wkst=3, interval=2, span=3, K=3)
+    # positive and negative BYSETPOS members addressing the same candidate: yielded once
+    A(freq=W, byweekday=[0, 2, 4], bysetpos=[3, -1], span=1, K=4)
+    A(freq=Y, bymonth=[2], bymonthday=[28, 29], bysetpos=[2, -1], span=5, K=4)
+    A(freq=MO_, bymonthday=[31], byhour=[6, 18], bysetpos=[1, 2, -1], span=1, K=5)
     # shapes that expose the recorded findings (kept so that the findings stay visible and anything new next to them is reported)
     A(freq=MO_, byweekday=[0, [4, 1]], span=2, until_days=200)
     A(freq=MO_, byweekday=[[6, 52]], span=1)
